@@ -255,6 +255,10 @@ if doc, ok := runtimeDoc(&v.@fieldName, @prefix, names...); ok  {
 
 		c.RenderT(`
 func(*@Type) RuntimeDoc(names ...string) ([]string, bool) {
+	if len(names) > 0 {
+		// not a struct: there is no field to document
+		return nil, false
+	}
 	return @doc, true
 }
 
